@@ -997,9 +997,32 @@ func c09ConstraintsThroughReferences(ctx *Ctx, r *Report) {
 		return
 	}
 	info := p.TypesInfo
+	// the methods of the generator that the derivation calls belong to it
+	derivation := []*ast.BlockStmt{fd.Body, dfd.Body}
+	constrains := map[*types.Func]bool{} // helpers that put resolved constraints on the option they return
+	ast.Inspect(dfd.Body, func(m ast.Node) bool {
+		if c, ok := m.(*ast.CallExpr); ok {
+			if f := callee(info, c); f != nil && f != der && f.Pkg() == p.Types {
+				if sig, ok := f.Type().(*types.Signature); ok && sig.Recv() != nil && namedName(sig.Recv().Type()) == "BuilderGenerator" {
+					if hfd, _ := ctx.DeclOf(f); hfd != nil && hfd.Body != nil {
+						derivation = append(derivation, hfd.Body)
+						ast.Inspect(hfd.Body, func(k ast.Node) bool {
+							if kc, ok := k.(*ast.CallExpr); ok {
+								if kf := callee(info, kc); kf != nil && kf.Name() == "WithTypeConstraints" {
+									constrains[f] = true
+								}
+							}
+							return true
+						})
+					}
+				}
+			}
+		}
+		return true
+	})
 	// (a) references: the derivation applies the constraints of the type the field's reference resolves to
 	resolves := false
-	for _, body := range []*ast.BlockStmt{fd.Body, dfd.Body} {
+	for _, body := range derivation {
 		ast.Inspect(body, func(m ast.Node) bool {
 			c, ok := m.(*ast.CallExpr)
 			if !ok {
@@ -1032,9 +1055,55 @@ func c09ConstraintsThroughReferences(ctx *Ctx, r *Report) {
 	r.Count("derivations of assignment constraints", 1)
 	r.Check(resolves, "derive/constraints-through-references", "builder derivation follows references for constraints", dfd.Pos(), "the constraints of the scalar a field's reference resolves to are put on the assignment",
 		"the derivation copies constraints only when the field's own type is a scalar: it never looks through a reference — Python: `name(\"toolong\")` on `name: #Name` with `#Name: string & strings.MaxRunes(5)` is accepted silently, while the same constraint written inline raises ValueError")
+	// (a') every option the derivation appends comes from the code that does so: a path that builds its options
+	// otherwise (the branches of a union wrapper) loses the constraints reached through references
+	appends := 0
+	ast.Inspect(dfd.Body, func(m ast.Node) bool {
+		c, ok := m.(*ast.CallExpr)
+		if !ok || len(c.Args) != 2 {
+			return true
+		}
+		if id, ok := ast.Unparen(c.Fun).(*ast.Ident); !ok || id.Name != "append" || !strings.HasSuffix(exprString(c.Args[0]), ".Options") {
+			return true
+		}
+		appends++
+		constrained := false
+		origin := c.Args[1]
+		if id, ok := ast.Unparen(origin).(*ast.Ident); ok {
+			// a local variable: where it comes from, and whether WithTypeConstraints is applied to it in this function
+			ast.Inspect(dfd.Body, func(k ast.Node) bool {
+				switch x := k.(type) {
+				case *ast.AssignStmt:
+					if len(x.Lhs) == 1 && len(x.Rhs) == 1 {
+						if l, ok := x.Lhs[0].(*ast.Ident); ok && objOf(info, l) == objOf(info, id) {
+							origin = x.Rhs[0]
+						}
+					}
+				case *ast.CallExpr:
+					if inner, ok := ast.Unparen(x.Fun).(*ast.CallExpr); ok {
+						if f := callee(info, inner); f != nil && f.Name() == "WithTypeConstraints" && len(x.Args) == 1 {
+							if root := rootIdent(x.Args[0]); root != nil && objOf(info, root) == objOf(info, id) {
+								constrained = true
+							}
+						}
+					}
+				}
+				return true
+			})
+		}
+		if oc, ok := ast.Unparen(origin).(*ast.CallExpr); ok && constrains[callee(info, oc)] {
+			constrained = true
+		}
+		r.Check(constrained, "derive/constraints-through-references", fmt.Sprintf("structObjectToBuilder option #%d (%s)", appends, exprString(c.Args[1])), c.Pos(), "built by the code that puts the resolved constraints on the assignment",
+			"an option of the derivation is built without the step that follows references for constraints: `u: StrC | int` with `StrC: string & strings.MinRunes(2)` gives the branch option StrC(StrC) no constraint, while `s: StrC` has [minLength 2] — Java checks constraints in options only, the value goes through")
+		return true
+	})
+	if appends == 0 {
+		r.Undecided("anchor changed: structObjectToBuilder appends no option")
+	}
 	// (b) elements of lists and maps
 	elements := false
-	for _, body := range []*ast.BlockStmt{fd.Body, dfd.Body} {
+	for _, body := range derivation {
 		ast.Inspect(body, func(m ast.Node) bool {
 			if sel, ok := m.(*ast.SelectorExpr); ok && sel.Sel.Name == "ValueType" {
 				elements = true
